@@ -23,7 +23,13 @@ formulas in a workbook (=LEFT(A1,B1)&MID(A1,B1+1,LEN(A1)), =REPLACE(..) next to
 =LEFT(..)&D1&MID(..), =CONCATENATE(A1,D1) next to =A1&D1, ...).  A vector whose
 spec value is <<"U">> (statement silent: MID/FIND start < 1, SUBSTITUTE with an
 instance < 1, TEXT of a negative number that rounds to zero) is executed but
-not judged.
+not judged.  The & operator is also called as the function the formula
+evaluator uses (build_operator_operand_fixup) with every CONCATENATE vector.
+For every number (as int, whole float, double; also as a literal in the
+formula) the functions are moreover compared with each other
+(Driver.agreement): CONCATENATE(x) = x&"" = what LEFT / RIGHT / MID / REPLACE /
+LEN / FIND / ... see, and that text is a numeral of at most 15 significant
+digits that reads back as x -- whatever notation the code chooses.
 """
 import concurrent.futures
 import itertools
